@@ -684,6 +684,8 @@ static PyObject* gesv(PyObject *self, PyObject *args, PyObject *kwrds)
     if (!PyArg_ParseTupleAndKeywords(args, kwrds, "OO|Oiiiiii", kwlist,
         &A, &B, &ipiv, &n, &nrhs, &ldA, &ldB, &oA, &oB)) return NULL;
 
+    /* an explicit None is the same as omitting the argument */
+    if ((PyObject *) ipiv == Py_None) ipiv = NULL;
     if (!Matrix_Check(A)) err_mtrx("A");
     if (!Matrix_Check(B)) err_mtrx("B");
     if (MAT_ID(A) != MAT_ID(B)) err_conflicting_ids;
@@ -1039,6 +1041,8 @@ static PyObject* gbsv(PyObject *self, PyObject *args, PyObject *kwrds)
         &A, &kl, &B, &ipiv, &ku, &n, &nrhs, &ldA, &ldB, &oA, &oB))
         return NULL;
 
+    /* an explicit None is the same as omitting the argument */
+    if ((PyObject *) ipiv == Py_None) ipiv = NULL;
     if (!Matrix_Check(A)) err_mtrx("A");
     if (!Matrix_Check(B)) err_mtrx("B");
     if (MAT_ID(A) != MAT_ID(B)) err_conflicting_ids;
@@ -2994,6 +2998,8 @@ static PyObject* sysv(PyObject *self, PyObject *args, PyObject *kwrds)
         return NULL;
 #endif
 
+    /* an explicit None is the same as omitting the argument */
+    if ((PyObject *) ipiv == Py_None) ipiv = NULL;
     if (!Matrix_Check(A)) err_mtrx("A");
     if (!Matrix_Check(B)) err_mtrx("B");
     if (MAT_ID(A) != MAT_ID(B)) err_conflicting_ids;
@@ -3177,6 +3183,8 @@ static PyObject* hesv(PyObject *self, PyObject *args, PyObject *kwrds)
         return NULL;
 #endif
 
+    /* an explicit None is the same as omitting the argument */
+    if ((PyObject *) ipiv == Py_None) ipiv = NULL;
     if (!Matrix_Check(A)) err_mtrx("A");
     if (!Matrix_Check(B)) err_mtrx("B");
     if (MAT_ID(A) != MAT_ID(B)) err_conflicting_ids;
@@ -6709,6 +6717,10 @@ static PyObject* gees(PyObject *self, PyObject *args, PyObject *kwrds)
         kwlist, &A, &W, &Vs, &F, &n, &ldA, &ldVs, &oA, &oW, &oVs))
         return NULL;
 
+    /* an explicit None is the same as omitting the argument */
+    if ((PyObject *) W == Py_None) W = NULL;
+    if ((PyObject *) Vs == Py_None) Vs = NULL;
+    if ((PyObject *) F == Py_None) F = NULL;
     if (!Matrix_Check(A)) err_mtrx("A");
     if (n < 0){
         n = A->nrows;
@@ -6935,6 +6947,12 @@ static PyObject* gges(PyObject *self, PyObject *args, PyObject *kwrds)
         kwlist, &A, &B, &a, &b, &Vsl, &Vsr, &F, &n, &ldA, &ldB, &ldVsl,
         &ldVsr, &oA, &oB, &oa, &ob, &oVsl, &oVsr)) return NULL;
 
+    /* an explicit None is the same as omitting the argument */
+    if ((PyObject *) a == Py_None) a = NULL;
+    if ((PyObject *) b == Py_None) b = NULL;
+    if ((PyObject *) Vsl == Py_None) Vsl = NULL;
+    if ((PyObject *) Vsr == Py_None) Vsr = NULL;
+    if ((PyObject *) F == Py_None) F = NULL;
     if (!Matrix_Check(A)) err_mtrx("A");
     if (!Matrix_Check(B)) err_mtrx("B");
     if (MAT_ID(B) != MAT_ID(A)) err_conflicting_ids;
